@@ -232,6 +232,20 @@ def _open(I, a, k):
         fs.log.append(("open_w", f.key, None))
         fs.exists[f.key] = True
         fs.size[f.key] = 0
+    elif "a" in mode:
+        # append: the position is the current end of the file (0 for a file that does not exist yet); nothing is truncated
+        fs.log.append(("open_a", f.key, None))
+        known = fs.exists.get(f.key, False)
+        if known is True and f.key in fs.size:
+            gf.pos = fs.size[f.key]
+        elif known is False:
+            gf.pos = 0
+            fs.size[f.key] = 0
+        else:
+            from .core import wrap
+            ex = term(known)
+            gf.pos = wrap(z3.If(ex, term(fs.size.get(f.key, z3.Int("size!" + f.key))), z3.IntVal(0)))
+        fs.exists[f.key] = True
     reg = getattr(I.session, "ghost_files", None)
     if reg is None:
         reg = I.session.ghost_files = {}
